@@ -29,6 +29,10 @@ CTX = [
     ("path-qualified", lambda x: ("raw", "crate::models::%s" % rg.rust(x))),
     ("std-qualified-map", lambda x: ("raw", "std::collections::HashMap<String, %s>" % rg.rust(x))),
     ("path-qualified-in-Vec", lambda x: ("raw", "Vec<self::app_models::%s>" % rg.rust(x))),
+    # tuple members that contain commas of their own
+    ("tuple-of-map", lambda x: ("tuple", [("hmap", rg.P("String"), x), rg.P("u32")])),
+    ("tuple-of-tuple", lambda x: ("tuple", [("tuple", [x, rg.P("u32")]), rg.P("String")])),
+    ("tuple-after-map", lambda x: ("tuple", [("bmap", rg.P("u8"), rg.P("String")), ("vec", x)])),
     ("Option-Rc", lambda x: ("raw", "Option<Rc<%s>>" % rg.rust(x))),
 ]
 
